@@ -3,6 +3,8 @@ from __future__ import annotations
 
 import ast
 
+from fractions import Fraction
+
 from .. import dag, kern
 from ..arr import Arr
 from ..pe import PERaise
@@ -13,7 +15,7 @@ META = {
             "singlet dispatcher is proved to return the identity for equal couplings for every method and order (evaluated with "
             "one symbol for both couplings: the closed forms are 0/0 there); the QED non-singlet, singlet and valence kernels are proved to be "
             "the identity when all coupling steps coincide. Composition E(a2,a1)E(a1,a0) = E(a2,a0) is proved as an identity in "
-            "all symbols for the non-singlet exact, expanded and ordered-truncated kernels at orders 1-4 and for the LO singlet "
+            "all symbols for the non-singlet exact, expanded and ordered-truncated kernels at orders 1-4, in three orderings of the couplings (two steps towards higher scales, two towards lower scales, a step down followed by a step up - conditions that compare couplings are decided per ordering), and for the LO singlet "
             "kernel with a general 2x2 matrix. Every singlet method that iterates over coupling steps (orders 2-4) is proved to "
             "accumulate its steps in path order: with a free intermediate grid point am the two-step kernel is exactly "
             "K(am->a1) @ K(a0->am) of the one-step kernels (later step on the left).",
@@ -105,17 +107,28 @@ def run(chk):
                            where=fq.where, instance=inst, data={"witness": info}, how="PE + PIT F_p")
 
     # ---- composition --------------------------------------------------------------------------
+    # in every ordering of the three couplings (conditions that compare couplings are decided per regime): two steps towards higher
+    # scales, two towards lower scales, and a step down in scale followed by a step up
+    F_ = Fraction
+    regimes = (("forward", {"a0": F_(30, 1000), "a1": F_(25, 1000), "a2": F_(20, 1000)}),
+               ("backward", {"a0": F_(20, 1000), "a1": F_(25, 1000), "a2": F_(30, 1000)}),
+               ("down-then-up", {"a0": F_(25, 1000), "a1": F_(30, 1000), "a2": F_(20, 1000)}))
     for n in range(1, 5):
         g = kern.ns_gamma(n)
         for mname in ("ITERATE_EXACT", "ITERATE_EXPANDED", "ORDERED_TRUNCATED"):
-            inst = f"order={n},method={mname}"
-            n_inst += 1
-            E21 = pe.call(nd.qname, [(n, 0), M[mname], g, a2, a1, nf])
-            E10 = pe.call(nd.qname, [(n, 0), M[mname], g, a1, a0, nf])
-            E20 = pe.call(nd.qname, [(n, 0), M[mname], g, a2, a0, nf])
-            ok, info = dag.is_zero_fp([dag.sub(dag.mul(E21, E10), E20)], chk.seed, 3)
-            chk.decide(ok, "exact-composition", nd.qname, f"E(a2,a1)E(a1,a0) != E(a2,a0) for the non-singlet kernel ({inst})",
-                       where=nd.where, instance=inst, data={"witness": info}, how="PIT F_p")
+            for rname, rep in regimes:
+                inst = f"order={n},method={mname},couplings={rname}"
+                n_inst += 1
+                try:
+                    with kern.direction(rep):
+                        E21 = pe.call(nd.qname, [(n, 0), M[mname], g, a2, a1, nf])
+                        E10 = pe.call(nd.qname, [(n, 0), M[mname], g, a1, a0, nf])
+                        E20 = pe.call(nd.qname, [(n, 0), M[mname], g, a2, a0, nf])
+                    ok, info = dag.is_zero_fp([dag.sub(dag.mul(E21, E10), E20)], chk.seed, 3)
+                except (ZeroDivisionError, PERaise) as e:
+                    ok, info = False, {"error": str(e)}
+                chk.decide(ok, "exact-composition", nd.qname, f"E(a2,a1)E(a1,a0) != E(a2,a0) for the non-singlet kernel ({inst})",
+                           where=nd.where, instance=inst, data={"witness": info}, how="PIT F_p")
     G = kern.sg_gamma(1)
     f = src.func(f"{kern.SG}.lo_exact")
     # LO singlet: K(a2,a1)K(a1,a0) and K(a2,a0) both solve dX/da2 = gamma0/(beta0 a2) X with the same value at a2=a1 iff
